@@ -114,6 +114,35 @@ def bounded(check, tier):
     s.done()
 
 
+def env_config_failures():
+    """(runs in a child interpreter) -> [[name, detail], ...] for every configuration key name that fails config_case"""
+    out = []
+    for name in config_names():
+        d = config_case(name)
+        if d:
+            out.append([name, d])
+    return out[:6]
+
+
+def environments(check, tier):
+    """the key tables are built when curtsies is imported: whatever the environment then says (TERM in particular), every configuration
+    key name still maps to names the decoder can produce"""
+    from bounded.common import ENVIRONMENTS, run_in_environment
+    s = Suite(check, "C20.environments", f"the complete enumeration of configuration key names in {len(ENVIRONMENTS)} fresh interpreters with other environment "
+              "variables set before curtsies is imported (TERM=rxvt / rxvt-unicode / linux / screen / dumb / empty, NO_COLOR, locale ...)",
+              bound=f"{len(ENVIRONMENTS)} environments", exhaustive=False)
+    for env in ENVIRONMENTS:
+        s.case(tuple(sorted(env.items())), sample=dict(env))
+        ran, res = run_in_environment("props.C20", "env_config_failures", env)
+        if not ran:
+            check.note(f"C20.environments: child under {env} did not run: {res}")
+            continue
+        for name, d in res[:3]:
+            s.fail("C20.config_name.environment", dict(environment=env, name=name), d[:300])
+    s.done()
+
+
 def run(check, tier, seed):
     deductive(check, tier)
     bounded(check, tier)
+    environments(check, tier)
